@@ -2,8 +2,6 @@
 
 use crate::base::*;
 use crate::gen::*;
-use crate::mon::*;
-use crate::ops::*;
 use crate::run::*;
 
 pub struct Shard {
